@@ -235,6 +235,144 @@ theorem fitLoop_stopAsk (es : EarlyStopping α) (evalFirst : Bool) (ev₀ : AnyE
           · have : max b (a + 1 - 1) = max b (a - 1) := by omega
             rw [← this]; exact hre
 
+/-! ### several stop sources -/
+
+theorem src_onEpochEnd_asks (src : StopSrc α) (ev : AnyEval W α) (stop : Bool) (last : Option Int) (e : Int) (st : StopState)
+    (h : src.onEpochEnd ev stop last e = .ok st) : st.stop = (stop || srcAsks src ev e) := by
+  cases src with
+  | stopper es =>
+    have h1 : es.onEpochEnd ev ⟨stop, last⟩ e = .ok st := h
+    have := (stopper_onEpochEnd_asks es ev ⟨stop, last⟩ st e h1).1
+    rw [this]
+    rfl
+  | request eps =>
+    simp only [StopSrc.onEpochEnd, Except.ok.injEq] at h
+    subst h
+    simp [srcAsks, StopSrc.onEpochEnd]
+
+theorem srcsEpochEnd_asks (ev : AnyEval W α) (e : Int) :
+    ∀ (l l' : List (StopSrc α × Option Int)) (stop stop' : Bool), srcsEpochEnd ev e l stop = .ok (l', stop') →
+      stop' = (stop || srcsAsk (l.map Prod.fst) ev e) ∧ l'.map Prod.fst = l.map Prod.fst := by
+  intro l
+  induction l with
+  | nil =>
+    intro l' stop stop' h
+    simp only [srcsEpochEnd, Except.ok.injEq, Prod.mk.injEq] at h
+    obtain ⟨h1, h2⟩ := h
+    subst h1 h2
+    simp [srcsAsk]
+  | cons x rest ih =>
+    intro l' stop stop' h
+    obtain ⟨src, last⟩ := x
+    simp only [srcsEpochEnd] at h
+    cases h1 : src.onEpochEnd ev stop last e with
+    | error err => rw [h1] at h; simp at h
+    | ok st =>
+      rw [h1] at h
+      simp only at h
+      cases h2 : srcsEpochEnd ev e rest st.stop with
+      | error err => rw [h2] at h; simp at h
+      | ok pr =>
+        obtain ⟨rest', stop2⟩ := pr
+        rw [h2] at h
+        simp only [Except.ok.injEq, Prod.mk.injEq] at h
+        obtain ⟨g1, g2⟩ := h
+        subst g1 g2
+        obtain ⟨i1, i2⟩ := ih rest' st.stop stop2 h2
+        have := src_onEpochEnd_asks src ev stop last e st h1
+        refine ⟨?_, by simp [i2]⟩
+        rw [i1, this]
+        simp [srcsAsk, Bool.or_assoc]
+
+theorem epochEndMulti_asks (s s' : MultiState W α) (e : Int) (w : W) (h : epochEndMulti s e w = .ok s') :
+    s.ev.onEpochEnd e w = .ok s'.ev ∧ s'.fired = s.fired ++ [e] ∧
+    s'.before.map Prod.fst = s.before.map Prod.fst ∧ s'.after.map Prod.fst = s.after.map Prod.fst ∧
+    s'.stop = (s.stop || srcsAsk (s.before.map Prod.fst) s.ev e || srcsAsk (s.after.map Prod.fst) s'.ev e) := by
+  unfold epochEndMulti at h
+  cases h1 : srcsEpochEnd s.ev e s.before s.stop with
+  | error err => rw [h1] at h; simp at h
+  | ok pr =>
+    obtain ⟨before', stop1⟩ := pr
+    rw [h1] at h
+    simp only at h
+    cases h2 : s.ev.onEpochEnd e w with
+    | error err => rw [h2] at h; simp at h
+    | ok ev' =>
+      rw [h2] at h
+      simp only at h
+      cases h3 : srcsEpochEnd ev' e s.after stop1 with
+      | error err => rw [h3] at h; simp at h
+      | ok pr2 =>
+        obtain ⟨after', stop2⟩ := pr2
+        rw [h3] at h
+        simp only [Except.ok.injEq] at h
+        subst h
+        obtain ⟨a1, a2⟩ := srcsEpochEnd_asks s.ev e _ _ _ _ h1
+        obtain ⟨b1, b2⟩ := srcsEpochEnd_asks ev' e _ _ _ _ h3
+        exact ⟨rfl, rfl, a2, b2, by rw [b1, a1]⟩
+
+/-- the loop with several stop sources in terms of the derived request `multiAsk` (cf. `fitLoop_stopAsk`) -/
+theorem fitLoopMulti_ask (before after : List (StopSrc α)) (ev₀ : AnyEval W α) (wof : Int → W) (start b : Int) :
+    ∀ (n : Nat) (a : Int) (s r : MultiState W α),
+      (b + 1 - a).toNat = n → start ≤ a → s.stop = false →
+      s.before.map Prod.fst = before → s.after.map Prod.fst = after →
+      evalAfter ev₀ wof (epochRange start (a - 1)) = .ok s.ev →
+      fitLoopMulti s ((epochRange a b).map (fun e => (e, wof e))) = .ok r →
+      (∃ pre e post, epochRange a b = pre ++ e :: post ∧ multiAsk before after ev₀ wof start e = true ∧
+          (∀ e' ∈ pre, multiAsk before after ev₀ wof start e' = false) ∧
+          r.stop = true ∧ r.fired = s.fired ++ (pre ++ [e])) ∨
+      ((∀ e' ∈ epochRange a b, multiAsk before after ev₀ wof start e' = false) ∧
+          r.stop = false ∧ r.fired = s.fired ++ epochRange a b) := by
+  intro n
+  induction n with
+  | zero =>
+    intro a s r hn _ hs _ _ _ h
+    rw [epochRange_rec, if_pos (by omega)] at h ⊢
+    simp only [List.map_nil, fitLoopMulti, Except.ok.injEq] at h
+    subst h
+    exact Or.inr ⟨by simp, hs, by simp⟩
+  | succ n ih =>
+    intro a s r hn hsa hs hbf haf hev h
+    have hrec : epochRange a b = a :: epochRange (a + 1) b := by
+      rw [epochRange_rec a b, if_neg (by omega)]
+    rw [hrec] at h ⊢
+    simp only [List.map_cons, fitLoopMulti] at h
+    cases hb : epochEndMulti s a (wof a) with
+    | error err => rw [hb] at h; simp at h
+    | ok s' =>
+      rw [hb] at h
+      simp only at h
+      obtain ⟨g1, g2, g3, g4, g5⟩ := epochEndMulti_asks s s' a (wof a) hb
+      have hask : multiAsk before after ev₀ wof start a = s'.stop := by
+        unfold multiAsk
+        rw [hev]
+        simp only [g1]
+        rw [g5, hs, hbf, haf]
+        simp
+      have hev' : evalAfter ev₀ wof (epochRange start (a + 1 - 1)) = .ok s'.ev := by
+        have : a + 1 - 1 = a := by omega
+        rw [this, epochRange_snoc start a hsa]
+        exact evalAfter_snoc hev g1
+      by_cases hst : s'.stop = true
+      · rw [if_pos hst] at h
+        simp only [Except.ok.injEq] at h
+        subst h
+        exact Or.inl ⟨[], a, epochRange (a + 1) b, rfl, by rw [hask, hst], by simp, hst, by simpa using g2⟩
+      · rw [if_neg hst] at h
+        have hst' : s'.stop = false := by simpa using hst
+        rcases ih (a + 1) s' r (by omega) (by omega) hst' (by rw [g3, hbf]) (by rw [g4, haf]) hev' h with
+          ⟨pre, e, post, hsplit, he, hpre, hrs, hrf⟩ | ⟨hnone, hrs, hrf⟩
+        · refine Or.inl ⟨a :: pre, e, post, by rw [hsplit]; rfl, he, ?_, hrs, by rw [hrf, g2]; simp⟩
+          intro e' he'
+          rcases List.mem_cons.mp he' with h1 | h1
+          · rw [h1, hask, hst']
+          · exact hpre e' h1
+        · refine Or.inr ⟨?_, hrs, by rw [hrf, g2]; simp⟩
+          intro e' he'
+          rcases List.mem_cons.mp he' with h1 | h1
+          · rw [h1, hask, hst']
+          · exact hnone e' h1
+
 /-! ### the request oracle on the side of `QV.Train.fit` -/
 
 variable (stId : Nat) (es : EarlyStopping α) (evalFirst : Bool) (ev₀ : AnyEval W α) (wof : Int → W)
